@@ -108,10 +108,10 @@ class Rec:
         }
 
 
-def with_interpreter_options(shards, key=None, limit=3):
+def with_interpreter_options(shards, key=None, limit=4):
     """The shard list plus copies of a few of its shards (the first of every distinct value of `key`, or simply the
     first ones) that run in one-off interpreters started with other options: -O, -OO (asserts and docstrings stripped)
-    and -W error (every warning an exception)."""
+    -W error (every warning an exception) and -bb (mixing bytes and str is an error)."""
     picked, seen = [], set()
     for s in shards:
         if not isinstance(s, dict) or s.get("_pyflags"):
@@ -124,8 +124,10 @@ def with_interpreter_options(shards, key=None, limit=3):
         picked.append(s)
         if len(picked) >= limit:
             break
-    flags = (["-O"], ["-OO"], ["-W", "error"])
-    return list(shards) + [dict(s, _pyflags=flags[i % 3]) for i, s in enumerate(picked)]
+    flags = (["-O"], ["-OO"], ["-W", "error"], ["-bb"])
+    while picked and len(picked) < 4:
+        picked.append(picked[len(picked) % len(picked)])
+    return list(shards) + [dict(s, _pyflags=flags[i % 4]) for i, s in enumerate(picked[:4])]
 
 
 # --------------------------------------------------------------------------- worker
@@ -156,7 +158,7 @@ def worker_main(prop_id):
         try:
             if isinstance(msg["shard"], dict) and msg["shard"].get("_pyflags"):
                 # what this interpreter was really started with (optimisation level, warning filters)
-                rec.seen("interpreter-options", "optimize=%d warnoptions=%s" % (sys.flags.optimize, ",".join(sys.warnoptions) or "-"))
+                rec.seen("interpreter-options", "optimize=%d warnoptions=%s bytes_warning=%d" % (sys.flags.optimize, ",".join(sys.warnoptions) or "-", sys.flags.bytes_warning))
                 rec.count("shards-in-an-interpreter-with-other-options")
             mod.run(msg["shard"], rec, msg["tier"], msg["seed"])
         except BaseException:
